@@ -62,13 +62,15 @@ Print Assumptions C11_load_class.
     searchOneShard completes, fails, or panics into the recover wrapper — it never hangs; (2) the posting-list
     iterator (index/hititer.go newCompressedPostingIterator / next, Model/FormatPosting.v) on the list of ANY ngram
     (content and file-name ngrams), advanced with ANY sequence of limits, completes or fails with the read error of
-    the list — no panic, no hang: posting lists are not verified at load time, so these are arbitrary bytes. *)
+    the list — no panic, no hang: posting lists are not verified at load time, so these are arbitrary bytes.
+    [posting_walk] runs the iterator with the guards that translator/c11guard read from index/hititer.go
+    (Generated/PostingGuard.v, regenerated on every run). *)
 Theorem C11_served_safe : forall d i g limits,
   (classify_search (doc_read d i) = SOk \/ classify_search (doc_read d i) = SErr \/ classify_search (doc_read d i) = SContained)
   /\ (classify_search (posting_walk d g limits) = SOk \/ classify_search (posting_walk d g limits) = SErr)
   /\ (classify_search (name_posting_walk d g limits) = SOk \/ classify_search (name_posting_walk d g limits) = SErr).
 Proof.
-  intros d i g limits. split; [|split; [apply posting_walk_class|apply name_posting_walk_class]].
+  intros d i g limits. split; [|split; [exact (posting_walk_class d g limits)|exact (name_posting_walk_class d g limits)]].
   pose proof (doc_read_nd d i) as H. unfold classify_search.
   destruct (doc_read d i) as [x|e|w]; auto. destruct (w =? P_DIVERGE) eqn:E; auto.
   apply N.eqb_eq in E. subst. exfalso. apply H. reflexivity.
@@ -80,9 +82,12 @@ Print Assumptions C11_served_safe.
     together are at most the number of bytes of the list (every iteration consumes >= 1 byte or ends the list), and a
     complete walk first(), next(first()), ... ends after at most |list| + 1 postings. *)
 Theorem C11_posting_iter_terminates : forall blob limits,
-  exists it0 it s, cpi_new blob = Ok it0 /\ cpi_run true limits it0 0 = Ok (it, s) /\ s <= nlen blob
-  /\ exists l, postings_of true blob = Ok l /\ (length l <= S (length blob))%nat.
+  exists it0 it s, cpi_new chk_repo blob = Ok it0 /\ cpi_run g_repo limits it0 0 = Ok (it, s) /\ s <= nlen blob
+  /\ exists l, postings_of g_repo chk_repo blob = Ok l /\ (length l <= S (length blob))%nat.
 Proof.
+  (* g_repo / chk_repo are the guards the translator read from index/hititer.go: the proof goes through exactly when
+     they are `sz <= 0` in the loop and `sz < 0` in the constructor *)
+  change g_repo with g_le0. change chk_repo with true.
   intros blob limits. destruct (cpi_new_total blob) as (it0 & E0 & H0).
   destruct (cpi_run_total limits it0 0) as (it & s & E & H).
   exists it0, it, s. repeat split; auto; [unfold nlen in *; lia|apply postings_of_total].
@@ -94,15 +99,15 @@ Print Assumptions C11_posting_iter_terminates.
     a truncated varint leaves the iterator unchanged (so the divergence is real, not an artefact of the fuel).  With the
     guard of /repo (`sz <= 0`) the same list yields the postings 8, 22; an overflowing varint ends the list. *)
 Theorem C11_posting_iter_guard_lt0_refuted :
-  (exists it, cpi_new wit_posting_trunc = Ok it /\ cpi_run false [8; 22] it 0 = Panic P_DIVERGE)
-  /\ postings_of false wit_posting_trunc = Panic P_DIVERGE
-  /\ postings_of true wit_posting_trunc = Ok [8; 22]
-  /\ postings_of true wit_posting_overflow = Ok [8].
+  (exists it, cpi_new true wit_posting_trunc = Ok it /\ cpi_run g_lt0 [8; 22] it 0 = Panic P_DIVERGE)
+  /\ postings_of g_lt0 true wit_posting_trunc = Panic P_DIVERGE
+  /\ postings_of g_le0 true wit_posting_trunc = Ok [8; 22]
+  /\ postings_of g_le0 true wit_posting_overflow = Ok [8].
 Proof. exact cpi_guard_lt0_diverges. Qed.
 Print Assumptions C11_posting_iter_guard_lt0_refuted.
 
 Example C11_nonvacuous_posting :   (* the posting list of "nee" of the model-written healthy shard: one posting, rune 8 *)
-  (do d <- load_shard (mmap_file iso_healthy) false; do b <- shard_ngram_search d iso_ngram; postings_of true b) = Ok [8]
+  (do d <- load_shard (mmap_file iso_healthy) false; do b <- shard_ngram_search d iso_ngram; postings_of g_repo chk_repo b) = Ok [8]
   /\ (do d <- load_shard (mmap_file iso_healthy) false; do x <- posting_walk d iso_ngram [0; 8; 9]; Ok (cpi_first (fst x), snd x))
      = Ok (MaxU32, 0).
 Proof. vm_compute. split; reflexivity. Qed.
